@@ -407,7 +407,13 @@ def jline (j : JParse) (line : String) : JParse :=
       | some u, some e => some { r with creations := attachNew r.creations { oid := o, name := name, uid := u, euid := e } }
       | _, _ => none
   | "r" :: ws =>
-    j.upd line fun r => if r.res.isSome then none else (parseRes ws).map fun x => { r with res := some x }
+    -- the result that ends a via / bind op (not its first segment: refusals end there) is geteuid(function)
+    j.upd line fun r => if r.res.isSome then none else (parseRes ws).map fun x =>
+      let fo := if r.first then none else (match r.op with
+        | .via t _ => some t
+        | .bind t _ => some t
+        | _ => none)
+      { r with res := some x, fpOwner := fo }
   | "q" :: es =>
     let ps := es.map parseSnapEntry
     match j.open with
